@@ -91,6 +91,31 @@ def _keys_of(e):
     return [e["k"]]
 
 
+IMAX, IMAX1, IMIN = 2000000001, 2000000002, -2000000001
+
+
+def _int_extreme(seg, e):
+    """the delta is an int64 extreme, or the value the command met (its last observation) is one"""
+    if any(x in (IMAX, IMIN) for x in e.get("a", [])):
+        return True
+    for x in reversed(seg[:-1]):
+        if e["c"] == "hincrby":
+            if x.get("ev") == "obs_h" and x["k"] == e["k"]:
+                return any(f == e["a"][0] and len(v) >= 19 for f, v in x["fv"])
+        elif x.get("ev") == "obs_k" and x["k"] == e["k"]:
+            return len(x["get"]) >= 20
+    return False
+
+
+def _expire_extreme(seg, ty, keys):
+    """an expire-family command with the duration code IMAX on the failing key earlier in (or at the end of) the segment"""
+    for x in seg:
+        if x.get("ev") == "cmd" and x["c"] in ("expire", "hexpire", "lexpire", "sexpire", "zexpire", "setex") \
+                and x.get("a", [0])[0] == IMAX and _type_of(x["c"]) == ty and (set(_keys_of(x)) & set(keys)):
+            return True
+    return False
+
+
 def _noncanon(v):
     """symbols of a decimal numeral with a leading zero (01, -0, -01)"""
     if len(v) >= 2 and v[0] == 11:
@@ -133,6 +158,11 @@ def classify(seg, cls, expinv):
         sig["cmd"] = ev
     if ev == "cmd" and e["c"] in ("decr", "decrby") and e.get("r") == [4]:
         sig["trigger"] = "decr-unregistered"
+    elif ev == "cmd" and e["c"] in ("incr", "incrby", "hincrby") and e.get("r", [0])[0] == 1 and _int_extreme(seg, e):
+        # an increment at the int64 extremes answered a (wrapped) integer
+        sig["trigger"] = "int64-overflow"
+    elif _expire_extreme(seg, ty, keys):
+        sig["trigger"] = "expire-duration-overflow"
     elif ev == "cmd" and e["c"] in ("incr", "incrby", "hincrby") and e.get("r", [0])[0] == 1 and _noncanon_before(seg, e):
         # the store accepted a numeral with leading zeros that Redis rejects
         sig["trigger"] = "noncanonical-numeral"
@@ -617,6 +647,19 @@ def run_family(ctx, prop):
         drive_and_validate(ctx, zr, "regress-" + eng,
                            ["-eng", eng, "-policy", "wc", "-script", os.path.join(CHECKS, "kv_regress.ndjson"), "-seed", seed,
                             "-pool", pl, "-nk", "2", "-ns", "3", "-nowtick", "2", "-obsall", "3"], "wc", stats, samples, parts=1)
+
+    # ---- numeric extremes (int64 min/max values, deltas, durations, indexes) as a script: fully strict
+    # except for the recorded findings kv-incr-overflow-wraps / kv-expire-duration-overflow
+    for eng, pol, pl in ((("pebble", "wc", "1"), ("mem", "wc", str(mpool)), ("pebble", "ld", str(pool))) if prop != "C09" else ()):
+        drive_and_validate(ctx, zr, "extremes-%s-%s" % (eng, pol),
+                           ["-eng", eng, "-policy", pol, "-script", os.path.join(CHECKS, "kv_extremes.ndjson"), "-seed", seed,
+                            "-pool", pl, "-nk", "2", "-ns", "3", "-nowtick", "2"], pol, stats, samples, parts=1, do_shrink=False)
+        if pol == "wc":
+            # expire durations near int64 max: value-header policy only (under local deletion the repository's own
+            # tests give random 63-bit durations and expect success)
+            drive_and_validate(ctx, zr, "extremes-expire-%s-%s" % (eng, pol),
+                               ["-eng", eng, "-policy", pol, "-script", os.path.join(CHECKS, "kv_extremes_expire.ndjson"), "-seed", seed,
+                                "-pool", pl, "-nk", "2", "-ns", "3", "-nowtick", "2"], pol, stats, samples, parts=1, do_shrink=False)
 
     # ---- isolate stages of the recorded (open) findings of this family
     if prop in ("C09", "C10"):
